@@ -62,11 +62,23 @@ def hm(key, msg):
 
 # file names Tor has to escape in PROTOCOLINFO: spaces, quotes, and backslashes directly before a letter or digit that would be an
 # escape sequence of its own (\n \t \r \1 \x) if the path were unescaped twice or in the wrong order
-WEIRD_NAMES = ['cookie file "x" \\y', 'run\\tor', 'a\\nb', 'c\\rd', 'e\\101', 'f\\\\g', 'sp  ace ', "quo'te\\", 'x\\x41', '"', 'tab\there']
+WEIRD_NAMES = ['cookie file "x" \\y', 'run\\tor', 'a\\nb', 'c\\rd', 'e\\101', 'f\\\\g', 'sp  ace ', "quo'te\\", 'x\\x41', '"', 'tab\there', "tor's data", "''", 'new\nline', 'bell\x07', "it's \\'quoted\\'"]
 
 
 def tor_escape(path):
-    return '"' + path.replace('\\', '\\\\').replace('"', '\\"') + '"'
+    """the way Tor writes a path into the reply (`esc_for_log`): backslash before backslash, both kinds of quote; \\n \\r \\t; three
+    octal digits for what is not printable (the model's `torQuoted`, compared with this on every case that has a path)"""
+    out = []
+    for ch in path:
+        if ch in '\\"\'':
+            out.append('\\' + ch)
+        elif ch in '\n\r\t':
+            out.append({'\n': '\\n', '\r': '\\r', '\t': '\\t'}[ch])
+        elif 32 <= ord(ch) < 127:
+            out.append(ch)
+        else:
+            out.append('\\%03o' % ord(ch))
+    return '"' + ''.join(out) + '"'
 
 
 class Server:
@@ -317,9 +329,15 @@ def unesc_cases(rng, tier):
     # what Tor writes for paths: every ASCII character escaped Tor's way, alone and between others
     for code in range(0, 128):
         ch = chr(code)
-        esc = {'\\': '\\\\', '"': '\\"', '\n': '\\n', '\r': '\\r', '\t': '\\t'}.get(ch, ch if 32 <= code < 127 else '\\%03o' % code)
+        esc = tor_escape(ch)[1:-1]
         yield {'unesc': '"' + esc + '"'}
         yield {'unesc': '"/var/' + esc + esc + 'x' + esc + '"'}
+        # and the harness's Tor-side escaping itself against the model's `torQuoted` (the function C04_cookiefile_roundtrip is about)
+        yield {'toresc': ch}
+        yield {'toresc': '/var/' + ch + ch + 'x' + ch}
+    for name in WEIRD_NAMES:
+        yield {'toresc': '/tmp/c04-x/' + name}
+        yield {'unesc': tor_escape('/tmp/c04-x/' + name)}
 
 
 def cookie_bytes(ck):
@@ -374,10 +392,14 @@ def run_unesc(c):
 
 def run_cases(cases, drv, tier):
     common.quiet_twisted()
-    impls = [run_unesc(c) if 'unesc' in c else run_impl(c) for c in cases]
-    outs = drv.run([('unesc ' + hexs(c['unesc'])) if 'unesc' in c else driver_line(c) for c in cases]) if drv is not None else None
+    impls = [run_unesc(c) if 'unesc' in c else [hexs(tor_escape(c['toresc']))] if 'toresc' in c else run_impl(c) for c in cases]
+    outs = drv.run([('unesc ' + hexs(c['unesc'])) if 'unesc' in c else ('toresc ' + hexs(c['toresc'])) if 'toresc' in c else driver_line(c)
+                    for c in cases]) if drv is not None else None
     res = []
     for k, (c, im) in enumerate(zip(cases, impls)):
+        if 'toresc' in c:
+            res.append(Result(c, im, [outs[k]] if outs is not None else None, None, in_h=False, nontrivial=len(c['toresc']) > 1, tags=['tor-side-escaping']))
+            continue
         if 'unesc' in c:
             # the model of the unescaping (TxV.Unescape; C04_cookiefile_roundtrip) against the function itself; \u \U \N are outside it
             model = None
